@@ -53,14 +53,16 @@ type runDesc struct {
 	GOGC       string `json:"gogc"`
 	Race       bool   `json:"race_build"`
 	Parallel   bool   `json:"parallel_engine,omitempty"`
-	// Repeat: the observed run is the second execution of the program inside
-	// one process (as the shipped determinism tests do it): process-global state
-	// (process ids, id generator, caches) differs from a fresh process.
-	Repeat bool `json:"second_run_in_same_process,omitempty"`
+	// Reps > 1: the child executes the same simulation Reps times in this one
+	// process, each time on a fresh runner.Runner / simulation exactly as
+	// amd/tests/deterministic does (flags parsed once). State that survives
+	// between simulations (package-level variables, caches, id generators,
+	// process ids) differs for repetitions 2.. from a fresh process.
+	Reps int `json:"repetitions_in_one_process,omitempty"`
 }
 
 func (r runDesc) hostKey() string {
-	return fmt.Sprintf("P%d|cpus=%s|gogc=%s|race=%v|fam=%s|delays=%v|par=%v|repeat=%v", r.GOMAXPROCS, r.CPUs, r.GOGC, r.Race, r.Family, r.Delays, r.Parallel, r.Repeat)
+	return fmt.Sprintf("P%d|cpus=%s|gogc=%s|race=%v|fam=%s|delays=%v|par=%v|reps=%d", r.GOMAXPROCS, r.CPUs, r.GOGC, r.Race, r.Family, r.Delays, r.Parallel, r.Reps)
 }
 
 type childJob struct {
@@ -79,6 +81,7 @@ type bufRec struct {
 
 // childResult is the part of the observable record produced inside the child.
 type childResult struct {
+	Rep            int              `json:"repetition"`
 	Buffers        []bufRec         `json:"buffers"`
 	BufDigest      string           `json:"buf_digest"`
 	BufDigestNoPID string           `json:"buf_digest_without_pid"`
@@ -373,18 +376,19 @@ func childMain() {
 	sim.GetIDGenerator() // lazily initialised without synchronisation
 	setFlags(job.Case, job.Run)
 	rec.Note("started", true)
-	passes := 1
-	if job.Run.Repeat {
-		passes = 2
+	reps := job.Run.Reps
+	if reps < 1 {
+		reps = 1
 	}
-	var res *childResult
-	for pass := 0; pass < passes; pass++ {
-		res = runOnce(job, pass)
-		if pass+1 < passes {
-			rec.Note("first_pass", res)
+	for rep := 0; rep < reps; rep++ {
+		res := runOnce(job, rep)
+		res.Rep = rep
+		if rep == 0 {
+			rec.Note("result", res) // written at once: a crash in a later repetition keeps it
+		} else {
+			rec.Note(fmt.Sprintf("rep%d", rep), res)
 		}
 	}
-	rec.Note("result", res)
 	rec.Note("done", true)
 	os.Exit(0)
 }
